@@ -156,4 +156,34 @@ def runDec (O : DOracles) (s : Dec) : List DOp → List Obs
   | [] => []
   | op :: rest => let r := runDOp O s op; r.2 :: runDec O r.1 rest
 
+/-! ### Checking a real decode call against the footprint's structural claims -/
+
+/-- Members no decode call writes. -/
+def decConstSame (a b : Dec) : Bool :=
+  a.celtDecOffset == b.celtDecOffset && a.silkDecOffset == b.silkDecOffset && a.channels == b.channels && a.fs == b.fs &&
+  a.arch == b.arch && a.decodeGain == b.decodeGain && a.complexity == b.complexity && a.celtComplexity == b.celtComplexity &&
+  a.celtDisableInv == b.celtDisableInv && a.dcNChannelsAPI == b.dcNChannelsAPI && a.dcApiSampleRate == b.dcApiSampleRate
+
+/-- Is `post` a state `decodeStep` can produce from `pre` on its concealment path? -/
+def concealClaim (pre post : Dec) : Bool :=
+  let mode := if pre.prevRedundancy ≠ 0 then MODE_CELT_ONLY else pre.prevMode
+  if mode = 0 then decide (post = { pre with lastPacketDuration := post.lastPacketDuration })
+  else post.prevMode == mode && post.prevRedundancy == 0 &&
+       post.dcNChannelsInternal == pre.dcNChannelsInternal && post.dcInternalSampleRate == pre.dcInternalSampleRate
+
+/-- … on its packet path: DecControl.nChannelsInternal / internalSampleRate change only when the call leaves
+    `prev_mode` SILK-only or hybrid. -/
+def packetClaim (pre post : Dec) : Bool :=
+  isSilkMode post.prevMode ||
+  (post.dcNChannelsInternal == pre.dcNChannelsInternal && post.dcInternalSampleRate == pre.dcInternalSampleRate)
+
+/-- Verdict on one observed call (`dataNull`: the call passed data == NULL or len == 0). -/
+def decStepCheck (pre post : Dec) (dataNull : Bool) : String :=
+  if !decConstSame pre post then "constant-member-written"
+  else if decide (post = pre) then "ok"
+  else if concealClaim pre post then "ok"
+  else if dataNull then "conceal-claim-violated"
+  else if packetClaim pre post then "ok"
+  else "packet-claim-violated"
+
 end Opus.ResetState
